@@ -10,6 +10,7 @@ open CtrIO
 open CbcIO
 open Exefs
 open Tmd
+open Ncch
 open Driver_base
 
 let opt f = function None -> "-" | Some x -> f x
@@ -164,6 +165,16 @@ let run_tmd toks =
      | Err e -> "e:" ^ err_name e)
   | _ -> failwith "tmd args"
 
+(* ranges <size> s,e s,e ...  ->  a,b,l ... *)
+let run_ranges toks =
+  match toks with
+  | size :: rest ->
+    let extra = Stdlib.List.map (fun t -> match String.split_on_char ',' t with
+      | [a; b] -> (z_of_hex a, z_of_hex b) | _ -> failwith "range") rest in
+    String.concat " " (Stdlib.List.map (fun ((a, b), l) -> hex_of_z a ^ "," ^ hex_of_z b ^ "," ^ (if l then "1" else "0"))
+      (exefs_ranges extra (z_of_hex size)))
+  | _ -> failwith "ranges args"
+
 let dispatch (line : string) : string =
   match String.split_on_char ' ' (String.trim line) with
   | "engine" :: toks -> run_engine toks
@@ -172,6 +183,7 @@ let dispatch (line : string) : string =
   | "cbc" :: toks -> run_cbc toks
   | "exefs" :: toks -> run_exefs toks
   | "tmd" :: toks -> run_tmd toks
+  | "ranges" :: toks -> run_ranges toks
   | e :: _ -> failwith ("unknown entry " ^ e)
   | [] -> ""
 
